@@ -13,7 +13,7 @@ namespace ParamVerif.Repr
 def nameEqv (cname : String) (r o : Lit) : Bool :=
   match r, o with
   | .atom ra, .atom oa =>
-    (oa.kind == .str && isAutoLike cname oa.text)     -- auto-generated names aside
+    (oa.kind == .str && isAutoForm cname oa.text)     -- auto-generated names aside
     || ra == oa
   | _, _ => false
 
@@ -23,7 +23,7 @@ def sEqv (classes : Classes) : Lit → Lit → Bool
   | .atom a, .atom b => a == b
   | .list xs, .list ys => sEqvL classes xs ys
   | .tuple xs, .tuple ys => sEqvL classes xs ys
-  | .set xs, .set ys => xs == ys
+  | .set xs, .set ys => xs.length == ys.length && xs.all (fun x => ys.contains x)   -- sets are unordered
   | .dict ks vs, .dict ks' vs' => ks == ks' && sEqvL classes vs vs'
   | .obj c vals, .obj c' vals' =>
     c == c' && (match classes[c]? with
@@ -80,11 +80,13 @@ def ClsOK (classes : Classes) (c : Nat) (cls : Cls) : Prop :=
   classes.findIdx? (·.name == cls.name) = some c ∧ classes.find? (·.name == cls.name) = some cls ∧
   cls.name ≠ "set" ∧ (cls.params.map (·.name)).Nodup ∧ SigOK cls
 
-/-- the `name` parameter holds a string which is either of the auto-generated form or differs
-from the class-level default of `name` (which is the class name) -/
+/-- the `name` parameter holds a string which is either of the auto-generated form (class name +
+at least five digits), or neither looks like one to `_pprint` (class name + some digits) nor
+equals the class-level default of `name` (the class name) -/
 def NameOK (cls : Cls) (vals : List Lit) : Prop :=
   ∀ p v, (p, v) ∈ cls.params.zip vals → p.name = "name" →
-    ∃ a, v = .atom a ∧ a.kind = .str ∧ (isAutoLike cls.name a.text = true ∨ isEqual v p.default = false)
+    ∃ a, v = .atom a ∧ a.kind = .str ∧
+      (isAutoForm cls.name a.text = true ∨ (isAutoLike cls.name a.text = false ∧ isEqual v p.default = false))
 
 mutual
 /-- "a Parameterized object whose parameter values are literals, containers of literals or
